@@ -107,6 +107,17 @@ def check(col, url, opts, extra_kwargs=None):
             col.violation("unparseable-returned-unchanged", FN, inp, res, url)
         return None
     col.nontriv(("ok", url))
+    # the record form (unsplit=False, what the stems helpers consume) carries the same components as the string form
+    rr = call(normalize_url, url, unsplit=False, **kwargs)
+    col.count("record-form-agrees")
+    if rr[0] != "ok" or not hasattr(rr[1], "netloc"):
+        col.violation("record-form-agrees", FN, inp, repr(rr)[:200], "a SplitResult")
+    else:
+        from urllib.parse import urlunsplit as _unsplit
+        s_ = _unsplit(rr[1])
+        # (the string form drops the '//' of a scheme-less record when the protocol is stripped or was never there: both spellings are the record)
+        if s_ != res and not (s_.startswith("//") and s_[2:] == res):
+            col.violation("record-form-agrees", FN, inp, {"record": repr(rr[1]), "unsplit": s_}, res)
     try:
         dout, scheme_out = reparse(res, opts, has_protocol)
     except R.Unparseable as e:
@@ -232,7 +243,9 @@ def base_urls():
              "/camp", "/a/../b/./c//d", "/a%2Fb", "/a/INDEX.html", "/a/index.html/"]
     queries = [None, "id=1", "b=2&a=1", "utm_source=x&id=1", "id=1&utm_campaign=y&page=2", "id=1&amp;page=2", "q=%41&k=a+b", "amp=1&x=1", "x=1&fbclid=abc",
                # an ESCAPED ampersand is data, whatever follows it
-               "q=Tom%26amp%3BJerry&page=2", "q=a%26amp;b", "k%26amp%3B=1"]
+               "q=Tom%26amp%3BJerry&page=2", "q=a%26amp;b", "k%26amp%3B=1",
+               # key + value combinations: irrelevant for some values only (and AMP ones only with normalize_amp)
+               "ref=fb&id=1", "ref=mine&id=1", "mode=amp&mode=dark", "outputType=amp&x=1", "m=1&m=2", "platform=hootsuite&platform=ios"]
     frags = [None, "frag", "/route", "!/route", "!", "/"]
     out = []
     for h in hosts:
